@@ -10,26 +10,56 @@ from props import C53gen as G
 
 ID = "C53"
 THEOREMS = ["C53_pktline_total", "C53_pktline_no_oob", "C53_sideband_total", "C53_packp_lines_bound", "C53_advrefs_alloc",
-            "C53_leb128_total_no_oob", "C53_varint_consumed"]
-MODEL_FILES = ["PktLine.v", "Sideband.v", "Packp.v", "C53Varint.v"]
-LEVEL_TEXT = ("PARTIAL: Coq theorems (" + ", ".join(THEOREMS) + ") prove, for ALL inputs, termination within the stated fuel, in-range "
-              "slice indices and input-proportional allocation of the decoders modelled by this batch (pkt-line Read/Scanner, sideband "
-              "Demuxer/Muxer, LEB128 and entry-size varints, the line source of every packp v0 decoder, AdvRefs reference/shallow counts); "
-              "every other decoder (all 46 repository Fuzz* entry points, 44 mirrored) is only exercised: run on seeds, mutated seeds, "
-              "cross-fed seeds and random bytes under recover, a deadline and an allocation budget")
+            "C53_leb128_total_no_oob", "C53_varint_consumed",
+            "C53_idx_total", "C53_idx_no_oob", "C53_idx_alloc",
+            "C53_delta_total", "C53_delta_no_oob", "C53_delta_alloc",
+            "C53_tree_total", "C53_tree_no_oob", "C53_tree_alloc",
+            "C53_index_total", "C53_index_no_oob", "C53_index_alloc",
+            "C53_pack_total", "C53_pack_no_oob", "C53_pack_alloc",
+            "C53_wild_total", "C53_wild_no_oob",
+            "C53_rev_total", "C53_rev_no_oob", "C53_rev_alloc",
+            "C53_graph_total", "C53_graph_no_oob", "C53_graph_alloc",
+            "C53_objfile_total", "C53_objfile_no_oob",
+            "C53_lines_total", "C53_ident_no_oob", "C53_ident_alloc"]
+MODEL_FILES = ["PktLine.v", "Sideband.v", "Packp.v", "C53Varint.v", "PackBytes.v", "Idx.v"]
+LEVEL_TEXT = ("PARTIAL: Coq theorems (" + ", ".join(THEOREMS) + ") prove, for ALL inputs, termination within the stated fuel "
+              "(or, where a model merges fuel exhaustion with a rejection, that more fuel never changes the answer), in-range slice / "
+              "index expressions under the code's own checks (a boundary index equal to the table length is rejected, not read) and "
+              "input-proportional allocation for: pkt-line Read/Scanner, sideband Demuxer/Muxer, LEB128 and entry-size varints, the line "
+              "source of every packp v0 decoder, AdvRefs counts, the idx/rev readers (MemoryIndex, LazyIndex, mmap.PackScanner, "
+              "Decoder.Decode), the three delta appliers, Tree.Decode, the index (DIRC) decoder with its TREE/REUC/EOIE extensions, the "
+              "pack scanner and delta command loop, wildmatch, the revision parser, the commit-graph file reader, the loose-object "
+              "header and the commit/tag line scanner with Signature.Decode — on the models of those decoders written for C01 C02 C04 "
+              "C06 C08 C10 C12 C47 C49 C51 (imported, never copied).  Every other piece of decoding code (all 46 repository Fuzz* entry "
+              "points, 44 mirrored, plus 7 decode-then-every-lookup targets) is exercised: seeds, mutated / cross-fed seeds, random "
+              "bytes AND structurally valid files with every length / offset / count field on {0, max-1, max, max+1}, under recover, a "
+              "deadline and an allocation budget")
 MODELLED = ("plumbing/format/packfile/util: DecodeLEB128, DecodeLEB128FromReader, VariableLengthSize (Model/C53Varint.v, constants by gotrans); "
-            "pkt-line, sideband and the packp v0 decoders through the C34/C35 models. Not modelled (exercised only): object, objfile, packfile "
-            "parser/scanner/delta, idxfile, revfile, index, commitgraph, config (gcfg), gitignore, reflog, revision parser, URL parser, "
-            "protocol v2 messages, zlib, bufio; x/plumbing/worktree FuzzAdd/FuzzOpen are not mirrored (they need the fixtures module)")
+            "pkt-line, sideband and the packp v0 decoders through the C34/C35 models; through the models of other properties: idxfile "
+            "MemoryIndex / LazyIndex / Decoder, mmap.PackScanner, revfile (Model/Idx.v — impl = model re-checked here on the idx boundary "
+            "family through harness/cmd/c10), patchDelta / ReaderFromDelta / patchDeltaWriter (Model/Delta.v), Tree.Decode (Model/TreeObj.v), "
+            "index.Decoder (Model/IndexFile.v), packfile Scanner / parser bookkeeping / delta command loop (Model/PackParse.v), wildmatch "
+            "(Model/Gitignore.v), internal/revision parser (Model/Revision.v), commitgraph fileIndex (Model/CommitGraph.v), objfile.Reader.Header "
+            "(Model/ObjFile.v), the commit/tag line scanner and Signature.Decode (Model/ObjLines.v, Model/Ident.v). Not modelled / no theorem "
+            "(exercised only): the depth-first delta resolution of packfile.Parser (visit), packfile.Packfile read paths, reflog, refname, "
+            "capability lists and protocol v2 messages, config (gcfg), URL parser, zlib, bufio; x/plumbing/worktree FuzzAdd/FuzzOpen are not "
+            "mirrored (they need the fixtures module)")
 TRUSTED = [
     "C-impl: harness/cmd/c53 varint entry points vs Model/C53Varint.v; harness/cmd/c34 and c35 on malformed streams vs Model/PktLine.v, Model/Packp.v",
+    "C-impl (boundary): harness/cmd/c10 (MemoryIndex, LazyIndex, PackScanner) vs Model/Idx.v on the idx/rev boundary family of props/C53gen.py",
+    "exercise: harness/cmd/c53 lookups.go drives every accessor of a decoded idx / pack / index / commit-graph / object / delta with the names, "
+    "offsets and indices found in the input, their neighbours and the values at and one past each table's length; props/C53gen.py builds the files "
+    "(python struct/zlib/hashlib: git's documented layouts, checksums recomputed)",
     "exercise: harness/cmd/c53 mirrors the bodies of the repository's Fuzz* functions (call list checked against `func Fuzz` in the working tree on every run) and runs them under recover, a per-input deadline and a runtime.MemStats allocation budget",
 ]
 ASSUMPTIONS = ["a panic in a goroutine started by library code, or a runtime fatal error, kills the harness process and is reported as a missing reply",
                "allocation is measured as the TotalAlloc delta of a single-threaded run; budget = 48 MiB + 2 KiB per input byte "
                "(+ 2 MiB per API call for the decode-then-every-lookup targets, which make hundreds of calls on one input)",
                "a decoder that needs more than the deadline (20 s) on an input of a few KiB is reported as a hang"]
-RULE = ("case = (Fuzz* entry point, arguments) from the f.Add seeds of the repository, their mutations (truncation at every third byte, bit "
+RULE = ("boundary cases = structurally valid idx/rev, pack (+ idx over it), delta, index v2-v4, commit-graph, loose object, tree, commit/tag/"
+        "reflog, pkt-line / packp / sideband inputs in which ONE length / offset / count / index field takes {0, max-1, max, max+1} (and the "
+        "integer-width limits) relative to the real size of the table or buffer it refers to, each run through the format's fuzz entry point and "
+        "through the decode-then-every-lookup target; fuzz cases = (Fuzz* entry point, arguments) from the f.Add seeds of the repository, their mutations (truncation at every third byte, bit "
         "flips, byte insertion, length-field grids, duplication), seeds of other targets, and random bytes; varint cases: all continuation "
         "patterns up to 11 bytes; framing cases: the malformed buckets of C34/C35; non-trivial = non-empty input; distinct by content")
 
